@@ -467,20 +467,29 @@ Lemma reser_req_contract m :
   let m' := reser_req m in
   r_method m' = r_method m /\ r_target m' = r_target m /\ r_host m' = r_host m /\
   r_chunked m' = r_chunked m /\ r_body m' = r_body m /\
-  Permutation (r_headers m') (ua_fix (r_headers m)).
+  Permutation (r_headers m') (ua_fix (pragma_fix (r_headers m))).
 Proof. cbn. repeat split; auto. apply sort_headers_perm. Qed.
 
 Lemma ua_fix_id hs v : hget S_UA hs = Some v -> v <> [] -> ua_fix hs = hs.
 Proof. intros H Hv. unfold ua_fix. rewrite H. destruct v; [congruence|reflexivity]. Qed.
 
+Lemma pragma_fix_id hs : hget S_PRAGMA hs = None \/ hget S_CC hs <> None -> pragma_fix hs = hs.
+Proof.
+  unfold pragma_fix. intros [H|H].
+  - rewrite H. reflexivity.
+  - destruct (hget S_PRAGMA hs); [|reflexivity]. destruct (hget S_CC hs); [reflexivity|congruence].
+Qed.
+
 Lemma reser_req_same_headers m v :
-  hget S_UA (r_headers m) = Some v -> v <> [] -> Permutation (r_headers (reser_req m)) (r_headers m).
-Proof. intros H Hv. cbn. rewrite (ua_fix_id _ _ H Hv). apply sort_headers_perm. Qed.
+  hget S_UA (r_headers m) = Some v -> v <> [] ->
+  hget S_PRAGMA (r_headers m) = None \/ hget S_CC (r_headers m) <> None ->
+  Permutation (r_headers (reser_req m)) (r_headers m).
+Proof. intros H Hv Hp. cbn. rewrite (pragma_fix_id _ Hp), (ua_fix_id _ _ H Hv). apply sort_headers_perm. Qed.
 
 Lemma reser_resp_contract p :
   let p' := reser_resp p in
   p_status p' = p_status p /\ p_chunked p' = p_chunked p /\ p_body p' = p_body p /\
-  Permutation (p_headers p') (p_headers p).
+  Permutation (p_headers p') (pragma_fix (p_headers p)).
 Proof. cbn. repeat split; auto. apply sort_headers_perm. Qed.
 
 (* ------------------------------------------------------------------ *)
